@@ -216,9 +216,9 @@ fn guard_ok(row: &[Value], delim_chars: &str) -> bool {
     ts.iter().all(|s| !s.chars().any(|c| c == '\'' || c == '"' || c == '\n' || c == '\r' || delim_chars.contains(c)))
 }
 
-/// the number tokens of a JSON text in document order (serde_json's own f64 parsing is not exact
-/// without `float_roundtrip`, so the tokens are read back with Rust's `str::parse`)
-fn number_tokens(text: &str) -> Vec<String> {
+/// the number tokens of a JSON text in document order, read back with Rust's `str::parse` — independent of serde_json's
+/// float reader (which is only exact with `float_roundtrip`, enabled in /repo 265d413: finding D66); also used by extract.rs
+pub fn number_tokens(text: &str) -> Vec<String> {
     let b = text.as_bytes();
     let mut out = Vec::new();
     let mut i = 0;
